@@ -137,4 +137,16 @@ var plans = map[string]Plan{
 			"a stream mismatch preceded by the precondition monitor of a recorded handshake finding (D4, D5 of C04; D12 of C01) is counted as excluded",
 		},
 	},
+	"C06": {
+		Pkg: "c06",
+		Runs: []Run{
+			{Test: "^TestProps$/^partitions$", Checks: checks(60, 1500), Shards: shards(8, 16), Timeout: tmo(15*time.Minute, 60*time.Minute)},
+		},
+		Assumptions: []string{
+			"fragments write every non-input register before reading it (relying on values left by a previous activation or another collapsed fragment is undocumented)",
+			"collapse lists are restrictions of one linear extension of the DAG (a collapsed producer precedes its consumer)",
+			"only the first value on each external output is compared, inputs are offered once (keeps clear of the handshake findings of C04)",
+			"a partition that the static blocking-IO order model predicts to deadlock and that does not deliver is counted under the recorded finding; a live partition that does not deliver within 5000 ticks is a failure",
+		},
+	},
 }
